@@ -707,15 +707,16 @@ def layout(items, rnd, intensity=0.5, kinds=LAYOUT_KINDS):
     Returns (text, [set of kinds used per cmd item], [len(tokens) per cmd item]).
     Only these transformations are used (the ones the property claims):
       indent        other number of leading blanks on a command / continuation line
-      tabindent     leading tab(s) on the first line of a command or of a connective continuation
+      tabindent     leading tab(s) as the indentation of a physical line (first line of a command,
+                    connective continuation line, backslash continuation line)
       multispace    2..5 blanks between two tokens
       backslash     ` \\`newline between two tokens (continuation line starts with blanks only)
       connective    newline before a token that is a connective or comparison
       blank         blank (or blanks-only) line before a command or between connective pieces
       commentline   comment-only line before a command or between connective pieces
       trailcomment  ` # ...` after the last token of a command or of a connective piece
-    Never: comment/blank inside a backslash continuation, tab between tokens or after a
-    backslash, a split inside quotes.
+    Never: comment/blank inside a backslash continuation, tab between two tokens of one physical
+    line, a split inside quotes.
     """
     use = set(kinds)
     out = []
@@ -779,7 +780,11 @@ def layout(items, rnd, intensity=0.5, kinds=LAYOUT_KINDS):
             elif on("backslash", intensity * 0.35):
                 used.add("backslash")
                 out.append(cur + " " * rnd.randint(1, 2) + "\\")
-                cur = " " * rnd.randint(0, 14) + tok
+                if on("tabindent", intensity * 0.3):
+                    used.add("tabindent")   # indentation of a continuation line
+                    cur = rnd.choice(["\t", "\t\t", "  \t"]) + tok
+                else:
+                    cur = " " * rnd.randint(0, 14) + tok
                 in_backslash = True
             elif on("multispace", intensity * 0.6):
                 used.add("multispace")
@@ -795,3 +800,244 @@ def layout(items, rnd, intensity=0.5, kinds=LAYOUT_KINDS):
         used_all.append(sorted(used))
         ntoks.append(len(toks))
     return "\n".join(out) + "\n", used_all, ntoks
+
+
+# ------------------------------------------------------------------------------ addressing programs (C13)
+# Tokens are str.format templates over a name map: "{F0}" framer 0, "{N0_1}" frame 1 of framer 0,
+# "{A2}" actor 2 (name given with `do ... as`), "{T0}" clone tag 0. Rendering with another map is a
+# consistent renaming by construction. Entity name pools are disjoint from each other and from
+# every other word of the script, and contain no '_' and no digits (clone names are derived as
+# <main surname>_<tag>, insular tags as <original><n>).
+FRAMER_WORDS = ["engine", "pilot", "radar", "sonar"]
+FRAME_WORDS = ["idle", "climb", "cruise", "dive", "land", "taxi", "hover", "orbit", "glide", "stall", "bank", "flare"]
+ACTOR_WORDS = ["wolf", "lynx", "puma", "orca"]
+TAG_WORDS = ["twin", "dupe", "echoed"]
+FRESH = "zulu"
+ADDR_SHARE_WORDS = ["sa", "sb", "sc", "sd", "se"]
+ADDR_NODE_WORDS = ["na", "nb", "nc", "nd"]
+for _w in FRAMER_WORDS + FRAME_WORDS + ACTOR_WORDS + TAG_WORDS + [FRESH] + ADDR_SHARE_WORDS + ADDR_NODE_WORDS:
+    assert _w not in FORBIDDEN and _w not in WORDS, _w
+assert len(set(FRAMER_WORDS + FRAME_WORDS + ACTOR_WORDS + TAG_WORDS + ADDR_SHARE_WORDS + ADDR_NODE_WORDS)) == \
+    len(FRAMER_WORDS + FRAME_WORDS + ACTOR_WORDS + TAG_WORDS + ADDR_SHARE_WORDS + ADDR_NODE_WORDS)
+
+
+@st.composite
+def addr_ref(draw, ctx, node=False):
+    """-> (token templates of an indirect operand, form label).
+
+    ctx: {"f": framer index, "frames": {framer index: [frame syms]}, "framers": [framer syms],
+          "moot": current framer is a moot original (so `main` forms resolve in its clones),
+          "actors": [(actor sym, framer idx, frame sym)] defined so far, "do": inside a do command}
+    """
+    w = draw(st.sampled_from(ADDR_NODE_WORDS if node else ADDR_SHARE_WORDS))
+    f = ctx["f"]
+    own = ctx["frames"][f]
+    forms = ["abs", "root", "rootof", "me", "meinline", "framer", "framerme", "framernamed", "framerinline",
+             "framernamedinline", "frame", "frameme", "framenamed", "frameother", "frameinline",
+             "framenamedinline", "frameotherinline", "fullinline", "actor", "actorinline"]
+    if ctx.get("moot"):
+        forms += ["framermain", "framemain", "framermaininline", "framemaininline"] * 2
+    if ctx.get("actors"):
+        forms += ["actornamed", "actornamed"]
+    form = draw(st.sampled_from(forms))
+    g = draw(st.sampled_from(sorted(ctx["frames"])))          # some framer (maybe the own one)
+    gf = draw(st.sampled_from(ctx["frames"][g]))              # one of its frames
+    of_ = draw(st.sampled_from(own))                          # one of the own frames
+    F = "{%s}" % ctx["framers"][g]
+    t = {
+        "abs": [".%s.%s" % (draw(st.sampled_from(ADDR_NODE_WORDS)), w)],
+        "root": [w],
+        "rootof": [w, "of", "root"],
+        "me": [w, "of", "me"],
+        "meinline": ["me." + w],
+        "framer": [w, "of", "framer"],
+        "framerme": [w, "of", "framer", "me"],
+        "framernamed": [w, "of", "framer", F],
+        "framerinline": ["framer.me." + w],
+        "framernamedinline": ["framer.%s.%s" % (F, w)],
+        "frame": [w, "of", "frame"],
+        "frameme": [w, "of", "frame", "me"],
+        "framenamed": [w, "of", "frame", "{%s}" % of_],
+        "frameother": [w, "of", "frame", "{%s}" % gf, "of", "framer", F],
+        "frameinline": ["frame.me." + w],
+        "framenamedinline": ["frame.{%s}.%s" % (of_, w)],
+        "frameotherinline": ["frame.{%s}.%s" % (gf, w), "of", "framer", F],
+        "fullinline": ["framer.%s.frame.{%s}.%s" % (F, gf, w)],
+        "actor": [w, "of", "actor"],
+        "actorinline": ["actor.me." + w],
+        "framermain": [w, "of", "framer", "main"],
+        "framemain": [w, "of", "frame", "main"],
+        "framermaininline": ["framer.main." + w],
+        "framemaininline": ["frame.main." + w],
+    }
+    info = {"form": form, "w": w, "g": g, "gf": gf, "of": of_, "abs": t["abs"][0]}
+    if form == "actornamed":
+        a, af, an = draw(st.sampled_from(ctx["actors"]))
+        toks = [w, "of", "actor", "{%s}" % a, "of", "frame", "{%s}" % an, "of", "framer", "{%s}" % ctx["framers"][af]]
+        info.update(a=a, af=af, an=an)
+    else:
+        toks = t[form]
+    if node and draw(st.booleans()):
+        toks = [toks[0] + "."] + toks[1:]
+    ctx.setdefault("last", []).append(info)
+    return toks, form
+
+
+@st.composite
+def addr_program(draw):
+    """-> {"lines": [[indent, [token templates]]], "names": {sym: string}, "entities": [(kind, sym)],
+           "forms": [labels], "clones": bool}"""
+    nact = draw(st.integers(1, 2))
+    nmoot = draw(st.sampled_from([0, 0, 1, 1, 2]))
+    fwords = list(draw(st.permutations(FRAMER_WORDS)))
+    names = {}
+    framers = []
+    moot_flags = []
+    for i in range(nact + nmoot):
+        sym = "F%d" % i
+        framers.append(sym)
+        names[sym] = fwords[i]
+        moot_flags.append(i >= nact)
+    nwords = list(draw(st.permutations(FRAME_WORDS)))
+    frames = {}
+    for i in range(len(framers)):
+        k = draw(st.integers(1, 3))
+        syms = []
+        for j in range(k):
+            s = "N%d_%d" % (i, j)
+            syms.append(s)
+            names[s] = nwords.pop()
+        frames[i] = syms
+    # two active framers may use the same string for a frame (separate name spaces) when nothing is cloned
+    if nact == 2 and nmoot == 0 and draw(st.booleans()):
+        names[frames[1][0]] = names[frames[0][-1]]
+    awords = list(draw(st.permutations(ACTOR_WORDS)))
+    twords = list(draw(st.permutations(TAG_WORDS)))
+    actors = []
+    tags = []
+    forms = []
+    entities = [("framer", s) for s in framers] + [("frame", s) for i in sorted(frames) for s in frames[i]]
+    lines = [[0, ["house", "hs"]]]
+    finodes = {}     # framer sym -> (inode kind, word) | None
+    frinfo = {}      # frame sym -> {"over": frame sym | None, "inode": (kind, word) | None, "framer": index}
+    direct = []      # [line index, frame sym, [[parm key, ref info], ...]] for put / copy lines
+
+    def inode(ctx, level):
+        kind = draw(st.sampled_from(["ref", "ref", "plain"]))
+        if kind == "plain" or level != "do":
+            c = draw(st.sampled_from(["rel", "rel.", "abs", "me", "offramer", "offramernamed", "ofme"]))
+            w = draw(st.sampled_from(ADDR_NODE_WORDS))
+            g = draw(st.sampled_from(sorted(ctx["frames"])))
+            forms.append("via-" + level + ":" + c)
+            ctx["inode_kind"] = (c, w)
+            return {"rel": [w], "rel.": [w + "."], "abs": [".top." + w], "me": ["me." + w],
+                    "offramer": [w, "of", "framer"], "offramernamed": [w, "of", "framer", "{%s}" % framers[g]],
+                    "ofme": [w, "of", "me"]}[c]
+        toks, form = draw(addr_ref(ctx, node=True))
+        forms.append("via-do:" + form)
+        return toks
+
+    # clone plan: which active/moot framer frames carry `aux moot as ...`
+    moots = [i for i in range(len(framers)) if moot_flags[i]]
+    for i, fs in enumerate(framers):
+        ctx = {"f": i, "frames": frames, "framers": framers, "moot": moot_flags[i], "actors": actors, "do": False}
+        t = ["framer", "{%s}" % fs, "be", "moot" if moot_flags[i] else "active", "first", "{%s}" % frames[i][0]]
+        ctx["inode_kind"] = None
+        if draw(st.booleans()):
+            t += ["via"] + inode(ctx, "framer")
+        finodes[fs] = ctx["inode_kind"]
+        lines.append([2, t])
+        for j, ns in enumerate(frames[i]):
+            t = ["frame", "{%s}" % ns]
+            over = None
+            if j > 0 and draw(st.booleans()):
+                t += ["in", "{%s}" % frames[i][0]]
+                over = frames[i][0]
+            ctx["inode_kind"] = None
+            if draw(st.integers(0, 2)) == 0:
+                t += ["via"] + inode(ctx, "frame")
+            frinfo[ns] = {"over": over, "inode": ctx["inode_kind"], "framer": i}
+            lines.append([4, t])
+            # clones of later moot framers (a moot may clone a later moot: nested clones)
+            for m in moots:
+                if m > i and draw(st.integers(0, 1 if not moot_flags[i] else 2)) == 0 and len(tags) < len(twords) + 2:
+                    if twords and draw(st.booleans()):
+                        ts = "T%d" % len(tags)
+                        tags.append(ts)
+                        names[ts] = twords.pop()
+                        entities.append(("tag", ts))
+                        t = ["aux", "{%s}" % framers[m], "as", "{%s}" % ts]
+                    else:
+                        t = ["aux", "{%s}" % framers[m], "as", "mine"]
+                    if draw(st.booleans()):
+                        v = draw(st.sampled_from(["main", "mine", "me", "inode"]))
+                        t += ["via"] + (inode(ctx, "aux") if v == "inode" else [v])
+                        if v != "inode":
+                            forms.append("via-aux:" + v)
+                    lines.append([6, t])
+            for _ in range(draw(st.integers(1, 4))):
+                k = draw(st.sampled_from(["put", "put", "copy", "set", "go", "do", "do", "inc"]))
+                if k == "put":
+                    ctx["last"] = []
+                    r, fm = draw(addr_ref(ctx))
+                    forms.append(fm)
+                    direct.append([len(lines), ns, [["destination", ctx["last"][0]]]])
+                    lines.append([6, ["put", "1", "into"] + r])
+                elif k == "copy":
+                    ctx["last"] = []
+                    r1, f1 = draw(addr_ref(ctx))
+                    r2, f2 = draw(addr_ref(ctx))
+                    forms += [f1, f2]
+                    direct.append([len(lines), ns, [["source", ctx["last"][0]], ["destination", ctx["last"][1]]]])
+                    lines.append([6, ["copy"] + r1 + ["into"] + r2])
+                elif k == "inc":
+                    r1, f1 = draw(addr_ref(ctx))
+                    forms.append(f1)
+                    lines.append([6, ["inc"] + r1 + ["with", "2"]])
+                elif k == "set":
+                    r1, f1 = draw(addr_ref(ctx))
+                    r2, f2 = draw(addr_ref(ctx))
+                    forms += [f1, f2]
+                    lines.append([6, ["set"] + r1 + ["from"] + r2])
+                elif k == "go":
+                    r1, f1 = draw(addr_ref(ctx))
+                    forms.append(f1)
+                    far = draw(st.sampled_from((["next"] if j + 1 < len(frames[i]) else []) + ["me"] +
+                                               ["{%s}" % s for s in frames[i]]))
+                    t = ["go", far, "if"] + r1 + ["==", "1"]
+                    if draw(st.booleans()):
+                        r2, f2 = draw(addr_ref(ctx))
+                        forms.append(f2)
+                        t += ["and"] + r2 + draw(st.sampled_from([["is", "updated"], ["is", "changed", "in", "frame", "{%s}" % ns], [">=", "2"]]))
+                    lines.append([6, t])
+                else:
+                    t = ["do", "doer", "param"]
+                    named = awords and draw(st.booleans())
+                    if named:
+                        a = "A%d" % len(actors)
+                        names[a] = awords.pop()
+                        entities.append(("actor", a))
+                        t += ["as", "{%s}" % a]
+                    dctx = dict(ctx, do=True)
+                    if draw(st.booleans()):
+                        t += ["via"] + inode(dctx, "do")
+                    if draw(st.booleans()):
+                        t += ["per", draw(st.sampled_from(FIELDS_PER)), draw(st.sampled_from(
+                            ADDR_SHARE_WORDS + ["me.sa", ".top.sb", "framer.me.sc", "framer.me.frame.me.sd",
+                                                "framer.me.frame.me.actor.me.se"]))]
+                    if draw(st.booleans()):
+                        r1, f1 = draw(addr_ref(dctx))
+                        forms.append("from:" + f1)
+                        t += ["from"] + r1
+                    lines.append([6, t])
+                    if named:
+                        actors.append((a, i, ns))
+        if not moot_flags[i]:
+            lines.append([6, ["bid", "stop", draw(st.sampled_from(["me", "{%s}" % fs]))]])
+    return {"lines": lines, "names": names, "entities": entities, "forms": forms,
+            "clones": any(ln[1][0] == "aux" for ln in lines), "framers": framers,
+            "moot": moot_flags, "finodes": finodes, "frinfo": frinfo, "direct": direct}
+
+
+def render_templates(lines, names):
+    return "".join(" " * ind + " ".join(t.format(**names) for t in toks) + "\n" for ind, toks in lines)
